@@ -84,8 +84,40 @@ def respace(draw, text):
     return ''.join(t + draw(WS) for t in toks)
 
 
+def long_text(kind, n, depth, shape):
+    """A database with one very long statement (n symbols): the size range unit-sized generation never reaches"""
+    vs = ['v%d' % i for i in range(n)]
+
+    def bal(lo, hi):
+        if hi - lo == 1: return vs[lo]
+        if shape == 'flat' and hi - lo > 3: return '( \\f %s )' % ' '.join(vs[lo:hi])
+        m = (lo + hi) // 2
+        return '( \\imp %s %s )' % (bal(lo, m), bal(m, hi))
+
+    head = ['$c |- \\imp \\f ( ) #Pattern $.']
+    if kind == 'c':
+        stmt = ['$c %s $.' % ' '.join('c%d' % i for i in range(n))]
+    elif kind == 'v':
+        stmt = ['$v %s $.' % ' '.join(vs)]
+    elif kind == 'd':
+        stmt = ['$v %s $.' % ' '.join(vs), '$d %s $.' % ' '.join(vs)]
+    elif kind in ('a', 'e'):
+        stmt = ['$v %s $.' % ' '.join(vs[: n // 2 + 1]), 'long.%s $%s |- %s $.' % (kind, kind, bal(0, n // 2 + 1))]
+    else:
+        stmt = ['$v v0 $.', 'long.p $p |- v0 $= %s $.' % (' '.join('l%d' % i for i in range(n)) if shape == 'flat' else '( %s ) %s' % (' '.join('l%d' % i for i in range(n // 2)), 'ABCZ' * (n // 8)))]
+    tail = ['after $a |- ( \\imp v0 v0 ) $.'] if kind in ('v', 'd', 'a', 'e') else []
+    body = stmt + tail
+    for _ in range(depth):
+        body = ['${'] + body + ['$}']
+    return '\n'.join(head + body) + '\n'
+
+
 @st.composite
 def cases(draw):
+    if draw(st.integers(0, 11)) == 0:
+        n = draw(st.sampled_from([300, 1000, 2000, 3000, 4100, 5000])) + draw(st.integers(0, 120))
+        return {'part': 'rt', 'long': True,
+                'text': long_text(draw(st.sampled_from(['c', 'v', 'd', 'a', 'e', 'p'])), n, draw(st.integers(0, 2)), draw(st.sampled_from(['flat', 'balanced'])))}
     if draw(st.integers(0, 2)) == 0:
         declared = []
         stmts = draw_stmts(draw, declared, 0, [0])
@@ -215,7 +247,7 @@ def body(c, stats: Stats):
             db2 = parse_database(t2)
         except Exception as e:
             raise Violation('the printed form of a parsed database does not parse (%s: %s)\ninput:\n%s\nprinted:\n%s' % (type(e).__name__, str(e)[:200], text, t2), c, 'rt-reparse')
-        stats.case(text, '${' in text and '$p' in text, ['rt'] + (['rt-block'] if '${' in text else []) + (['rt-compressed'] if '$= (' in ' '.join(text.split()) else []),
+        stats.case(text, ('${' in text and '$p' in text) or bool(c.get('long')), ['rt'] + (['rt-long-statement'] if c.get('long') else []) + (['rt-block'] if '${' in text else []) + (['rt-compressed'] if '$= (' in ' '.join(text.split()) else []),
                    {'text': ' '.join(text.split())[:300]})
         if db1 != db2:
             raise Violation('parse(print(parse(t))) differs from parse(t)\ninput:\n%s\nprinted:\n%s' % (text, t2), c, 'rt-differs')
